@@ -368,3 +368,17 @@ func QueueGrowth(pats [][]byte) (grew, wrapped, unwrapped, nodes int) {
 	}
 	return
 }
+
+// QueueGrowthSmall is QueueGrowth, skipped (zeros) for big pattern sets.
+func QueueGrowthSmall(pats [][]byte) (grew, wrapped, unwrapped, nodes int) {
+	total := 0
+	for _, p := range pats {
+		total += len(p)
+	}
+	if total > 20000 {
+		return
+	}
+	return QueueGrowth(pats)
+}
+
+func queueGrowthSmall(pats [][]byte) (int, int, int, int) { return QueueGrowthSmall(pats) }
